@@ -24,7 +24,11 @@ import (
 // changes the admitted set equals the file's set within a few seconds.
 
 type c18Edit struct {
-	Kind   string `json:"kind"` // add | remove | enable | disable | rewrite | dup (list an address once more) | shuffle
+	// add | remove | enable | disable | rewrite | dup (list an address once more) | shuffle | backup | rollback |
+	// omit-list (the file keeps only its enable line: no address is listed) | omit-enable (only the list: the
+	// switch is at its default, off) | empty (an empty file) | edit-and-rollback (copy aside, toggle one address,
+	// move the copy back)
+	Kind   string `json:"kind"`
 	IP     int    `json:"ip"`   // 1..8 -> 127.0.0.<ip>
 	Rename bool   `json:"rename"`
 }
@@ -47,7 +51,7 @@ func c18Gen(t *rapid.T) c18Case {
 	n := rapid.IntRange(1, 6).Draw(t, "nedits")
 	for i := 0; i < n; i++ {
 		c.Edits = append(c.Edits, c18Edit{
-			Kind:   rapid.SampledFrom([]string{"add", "add", "remove", "remove", "remove", "enable", "disable", "rewrite", "dup", "dup", "shuffle", "backup", "rollback", "rollback"}).Draw(t, "kind"),
+			Kind:   rapid.SampledFrom([]string{"add", "add", "remove", "remove", "remove", "enable", "disable", "rewrite", "dup", "dup", "shuffle", "backup", "rollback", "rollback", "omit-list", "omit-enable", "empty", "edit-and-rollback"}).Draw(t, "kind"),
 			IP:     rapid.IntRange(1, 8).Draw(t, "ip"),
 			Rename: rapid.IntRange(0, 2).Draw(t, "rename") == 0,
 		})
@@ -191,8 +195,19 @@ func c18Exec(c *c18Case) ([]Discrepancy, []string) {
 	defer f.Proxy.Stop()
 	evidence.For("C18").Add("proxy_starts", 1)
 	file := filepath.Join(f.Proxy.ConfDir(), "authip.yaml")
+	layout := "" // how the next write lays the file out
 	write := func(rename bool) error {
 		content := []byte(sut.AuthipYAML(enable, c18List(set, dups, reverse)))
+		switch layout {
+		case "omit-list":
+			content = []byte(fmt.Sprintf("enable: %v\n", enable))
+		case "omit-enable":
+			full := string(content)
+			content = []byte(full[strings.Index(full, "ip_white_list"):])
+		case "empty":
+			content = nil
+		}
+		layout = ""
 		if rename {
 			tmp := file + ".tmp"
 			if err := os.WriteFile(tmp, content, 0o644); err != nil {
@@ -315,6 +330,52 @@ func c18Exec(c *c18Case) ([]Discrepancy, []string) {
 			enable = true
 		case "disable":
 			enable = false
+		case "omit-list":
+			layout = e.Kind
+			set, dups = map[int]bool{}, map[int]int{}
+		case "omit-enable":
+			layout = e.Kind
+			enable = false
+		case "empty":
+			layout = e.Kind
+			enable = false
+			set, dups = map[int]bool{}, map[int]int{}
+		case "edit-and-rollback":
+			// copy aside, change the live file, wait until the change is in force, move the copy back
+			b, err := os.ReadFile(file)
+			if err != nil {
+				harnessProblem("cannot read the whitelist file: %v", err)
+			}
+			os.WriteFile(bak+"2", b, 0o644)
+			time.Sleep(15 * time.Millisecond)
+			had := set[e.IP]
+			if had {
+				delete(set, e.IP)
+			} else {
+				set[e.IP] = true
+			}
+			if err := write(e.Rename); err != nil {
+				harnessProblem("cannot write the whitelist file: %v", err)
+			}
+			what := fmt.Sprintf("edit %d (a copy is kept, then 127.0.0.%d is toggled)", i+1, e.IP)
+			trace = append(trace, what)
+			if ds := converge(what); ds != nil {
+				return ds, trace
+			}
+			if had {
+				set[e.IP] = true
+			} else {
+				delete(set, e.IP)
+			}
+			if err := os.Rename(bak+"2", file); err != nil {
+				harnessProblem("cannot move the copy into place: %v", err)
+			}
+			what = fmt.Sprintf("edit %d (the copy kept before the toggle is moved back over the file)", i+1)
+			trace = append(trace, what)
+			if ds := converge(what); ds != nil {
+				return ds, trace
+			}
+			continue
 		}
 		if err := write(e.Rename); err != nil {
 			harnessProblem("cannot write the whitelist file: %v", err)
@@ -337,7 +398,7 @@ func c18Classify(c *c18Case) (bool, []string) {
 	var cls []string
 	for _, e := range c.Edits {
 		cls = append(cls, "edit-"+e.Kind)
-		if e.Kind == "remove" || e.Rename || e.Kind == "rollback" {
+		if e.Kind == "remove" || e.Rename || e.Kind == "rollback" || e.Kind == "omit-list" || e.Kind == "omit-enable" || e.Kind == "empty" || e.Kind == "edit-and-rollback" {
 			nt = true
 		}
 		if e.Rename {
